@@ -173,7 +173,7 @@ def oracle_c03(rows):
                     for a, c, m, _v in ins:
                         o = po.get((a, c, m))
                         if o is None or o["status"] not in (0, 1):
-                            fails.append({"row": (r["hist"], r["wallet"]), "seed": r["seed"], "step": idx,
+                            fails.append({"row": (r["seed"], r["wallet"]), "seed": r["seed"], "step": idx,
                                           "what": "reservation took output %s that was not free (status %s)"
                                                   % ((a, c, m), None if o is None else o["status"])})
             cnt = collections.Counter()
@@ -182,19 +182,19 @@ def oracle_c03(rows):
                     cnt[(t["parent"], t["slate"], t["type"])] += 1
             for k, v in cnt.items():
                 if v > 1:
-                    fails.append({"row": (r["hist"], r["wallet"]), "seed": r["seed"], "step": idx,
+                    fails.append({"row": (r["seed"], r["wallet"]), "seed": r["seed"], "step": idx,
                                   "what": "%d live log entries of type %d for slate %d in account %d" % (v, k[2], k[1], k[0])})
             live = {(t["parent"], t["id"]) for t in snap["txs"] if t["type"] == 2 and not t["confirmed"]}
             for o in snap["outputs"]:
                 if o["status"] == 2 and (o["root"], o["tx"]) not in live:
-                    fails.append({"row": (r["hist"], r["wallet"]), "seed": r["seed"], "step": idx,
+                    fails.append({"row": (r["seed"], r["wallet"]), "seed": r["seed"], "step": idx,
                                   "what": "Locked output %s not held by a live TxSent entry" % ((o["acct"], o["child"]),)})
             prev = snap
     return fails
 
 
 def _fail(r, idx, what):
-    return {"row": (r["hist"], r["wallet"]), "seed": r["seed"], "step": idx, "what": what}
+    return {"row": (r["seed"], r["wallet"]), "seed": r["seed"], "step": idx, "what": what}
 
 
 def sv_map(snap):
@@ -395,4 +395,85 @@ def oracle_c17(rows):
                             if o["tx"] == t["id"] and o["root"] == t["parent"] and o["status"] == 2:
                                 fails.append(_fail(r, idx, "expired entry cancelled but output %s still Locked" % ((o["acct"], o["child"]),)))
             prev = snap
+    return fails
+
+
+def oracle_c04(rows):
+    """After a full refresh (update_all) of an account: every record of that account that is
+    Unspent or Locked is in the node's UTXO set and every Unconfirmed/Reverted one is not;
+    the balance figures are the partition of the record values recomputed independently;
+    after the final update_wallet_state (histories without cancels): no Spent record is in the
+    UTXO set and confirmed credits minus confirmed debits equal total + locked."""
+    fails = []
+    for r in rows:
+        had_cancel = False
+        for idx, s in enumerate(r["steps"]):
+            snap = s["snap"]
+            k = s["op"]["k"]
+            if k == "cancel" and s["rc"] == [0]:
+                had_cancel = True
+            # partition of the figures, on every snapshot
+            act = snap["active"]
+            confh = snap["conf_h"]
+            for row in snap.get("info", []):
+                if len(row) < 9:
+                    fails.append(_fail(r, idx, "retrieve_info failed: %s" % (row,)))
+                    continue
+                mc = row[0]
+                b = collections.Counter()
+                for o in snap["outputs"]:
+                    if o["root"] != act:
+                        continue
+                    v = int(o["value"])
+                    st = o["status"]
+                    if st == 1:
+                        if o["cb"] and o["lock"] > confh:
+                            b["imm"] += v
+                        else:
+                            conf = 0 if o["height"] > confh else min(1 + (confh - o["height"]), 2**64 - 1)
+                            b["conf" if conf < mc else "sp"] += v
+                    elif st == 0:
+                        if not o["cb"]:
+                            b["conf" if mc == 0 else "fin"] += v
+                    elif st == 2:
+                        b["lock"] += v
+                    elif st == 4:
+                        b["rev"] += v
+                sat = lambda x: min(x, 2**64 - 1)
+                want = [mc, sat(b["sp"]), sat(b["imm"]), sat(b["conf"]), sat(b["fin"]), sat(b["lock"]), sat(b["rev"]),
+                        sat(sat(sat(b["sp"]) + sat(b["conf"])) + sat(b["imm"])), confh]
+                got = [int(x) for x in row]
+                if got != want:
+                    fails.append(_fail(r, idx, "balance figures %s differ from the partition of the records %s" % (got, want)))
+            if k == "refresh" and s["op"]["all"] and s["rc"] == [0] and s["op"]["view"]["tip"] >= 0:
+                truth = {(t[0], t[1], t[2]): t[3] for t in s["extra"].get("truth", [])}
+                parent = s["op"]["parent"]
+                for o in snap["outputs"]:
+                    if o["root"] != parent:
+                        continue
+                    on_chain = truth.get((o["acct"], o["child"], o["mmr"]))
+                    if on_chain is None:
+                        continue
+                    if o["status"] in (1, 2) and not on_chain:
+                        fails.append(_fail(r, idx, "after full refresh output %s is recorded status %d but is not in the UTXO set"
+                                           % ((o["acct"], o["child"]), o["status"])))
+                    if o["status"] in (0, 4) and on_chain:
+                        fails.append(_fail(r, idx, "after full refresh output %s is in the UTXO set but recorded status %d"
+                                           % ((o["acct"], o["child"]), o["status"])))
+            if k == "update_state" and s["rc"] == [0] and not had_cancel:
+                cred = sum(int(t["credited"]) - int(t["debited"]) for t in snap["txs"]
+                           if t["parent"] == act and t["confirmed"])
+                held = sum(int(o["value"]) for o in snap["outputs"] if o["root"] == act and o["status"] in (1, 2))
+                if cred != held:
+                    # known finding C04-respent-change: a sent entry whose change output was re-spent
+                    # (relinked to the spending entry) while still unconfirmed is never marked confirmed
+                    adj = 0
+                    for t in snap["txs"]:
+                        if t["parent"] == act and t["type"] == 2 and not t["confirmed"] and t["n_in"] > 0:
+                            linked = [o for o in snap["outputs"] if o["root"] == act and o["tx"] == t["id"]]
+                            if linked and all(o["status"] == 3 for o in linked):
+                                adj += int(t["credited"]) - int(t["debited"])
+                    tag = " [respent-change]" if adj != 0 and cred + adj == held else ""
+                    fails.append(_fail(r, idx, "confirmed credits - debits = %d but total + locked = %d (account %d)%s"
+                                       % (cred, held, act, tag)))
     return fails
